@@ -38,7 +38,12 @@ ASSUMPTIONS = [
     "full logging product at seed 0 only (thorough); the other seeds use the 2-valued grid",
     "matplotlib Agg backend; pool workers and reference interpreters run under PYTHONHASHSEED=0; other hash seeds only in "
     "the dedicated new-interpreter comparison",
-    "quick tier: the new-interpreter comparison runs the two model kinds of an algorithm in one interpreter per hash seed",
+    "quick tier: the new-interpreter comparison runs several (algorithm, model) pairs one after the other in one interpreter per hash seed",
+    "between interpreters with different hash seeds the fitted model.parameters are compared; a difference confined to "
+    "model.fit_metrics (last bit of a float32 sum, value-dependent symptom of the set-order defect reported through "
+    "scipy_minimize) is counted in the evidence instead of being a separate signature",
+    "a result mismatch is attributed to logging / prior activity only when the plain call in the same interpreter agrees with "
+    "the reference interpreter; otherwise it is reported as 'same call in another interpreter'",
 ]
 
 HASHSEEDS = [0, 1, 2, 3, 4]
@@ -152,7 +157,7 @@ def bounds(tier):
             "logging grid": "fit(Gibbs) on the logistic model: 2-valued grid at seed 0 (set_logs route); diagonal for every other "
                             "(algorithm, model) and for the keyword route of fit(Gibbs) at VERIF_SEED",
             "histories": "9 prior activities x 3 seeds x {no logging, print+save} (scipy_minimize: 5 activities, seed 0, no logging)",
-            "interpreters": "every algorithm at seed 0 under 5 hash seeds (both model kinds in one interpreter per hash seed)",
+            "interpreters": "every (algorithm, model) at seed 0 under 5 hash seeds (3 groups of pairs, one interpreter per group and hash seed)",
         })
     else:
         common.update({
@@ -281,17 +286,32 @@ def differing_parts(obs, ref):
     return sorted(k for k in set(a) | set(b) if a.get(k) != b.get(k))
 
 
-def context_feature(case):
+PRIOR_CLASS = {
+    "rng1": "after consuming random numbers", "rng7": "after consuming random numbers",
+    "dtype_flip": "after switching the default dtype back and forth",
+    "fit_other": "after another run in the same interpreter", "personalize_other": "after another run in the same interpreter",
+    "same_case": "after another run in the same interpreter", "same_other_seed": "after another run in the same interpreter",
+    "same_settings": "after another run in the same interpreter",
+}
+PLAIN = "same call in another interpreter"
+
+
+def is_plain(case):
+    return case.get("prior", "nothing") == "nothing" and not L.logging_is_active(case.get("log"))
+
+
+def context_feature(case, baseline_differs=False):
+    """Minimal input feature of a result mismatch.  When the plain call (no logging, no prior activity) already differs
+    between this interpreter and the reference interpreter, everything else in the interpreter is a consequence of that."""
+    if baseline_differs or is_plain(case):
+        return PLAIN
     prior = case.get("prior", "nothing")
-    active = L.logging_is_active(case.get("log"))
     if prior != "nothing":
-        return f"after prior activity '{prior}'" + (", logging on" if active else "")
-    if active:
-        return "logging on"
-    return "no logging, same interpreter history as the pool worker"
+        return PRIOR_CLASS[prior]
+    return "logging on"
 
 
-def judge(case, obs, ref):
+def judge(case, obs, ref, baseline_differs=False):
     """Returns (outcome label, list of (signature, message, expected, observed))."""
     site = L.algo_site(case["algo"])
     out = []
@@ -307,7 +327,7 @@ def judge(case, obs, ref):
                     {"kind": ref["kind"], "digest": ref.get("digest")}, {k: obs.get(k) for k in ("kind", "exc", "msg", "where")}))
         return f"raise:{obs['exc']}", out
     if obs["kind"] != ref["kind"] or obs.get("stage") != ref.get("stage"):
-        out.append((f"{site}|outcome {obs['kind']}@{obs['stage']} instead of {ref['kind']}@{ref['stage']}|{context_feature(case)}",
+        out.append((f"{site}|outcome {obs['kind']}@{obs['stage']} instead of {ref['kind']}@{ref['stage']}|{context_feature(case, baseline_differs)}",
                     f"{obs.get('exc')}: {obs.get('msg')}", {k: ref.get(k) for k in ("kind", "stage", "exc")},
                     {k: obs.get(k) for k in ("kind", "stage", "exc", "msg")}))
         return f"{obs['kind']}@{obs['stage']}", out
@@ -315,7 +335,7 @@ def judge(case, obs, ref):
         return f"refused at {obs['stage']} time like the reference run: {obs['exc']}", out
     if obs["digest"] != ref["digest"]:
         parts = differing_parts(obs, ref)
-        out.append((f"{site}|result differs from the reference run|{context_feature(case)}",
+        out.append((f"{site}|result differs from the reference run|{context_feature(case, baseline_differs)}",
                     f"differing parts: {parts[:8]}", {p: ref["values"].get(p) for p in parts[:4]},
                     {p: obs["values"].get(p) for p in parts[:4]}))
         return "ok:other digest", out
@@ -342,7 +362,7 @@ def nontrivial(case):
         or case.get("route") == "kwargs"
 
 
-def _run_and_judge(acc, case, ref):
+def _run_and_judge(acc, case, ref, baseline_differs=False):
     from ..core import time_limit
 
     with time_limit(CASE_TIMEOUT):
@@ -350,7 +370,7 @@ def _run_and_judge(acc, case, ref):
     acc.evaluation()
     if case.get("prior") in ("fit_other", "personalize_other", "same_case", "same_other_seed", "same_settings"):
         acc.evaluation()
-    label, viols = judge(case, obs, ref)
+    label, viols = judge(case, obs, ref, baseline_differs)
     acc.outcome(label)
     if nontrivial(case):
         acc.nontriv(case_key(case))
@@ -365,13 +385,28 @@ def _run_and_judge(acc, case, ref):
     return obs
 
 
+def plain_case(c):
+    return {"algo": c["algo"], "model": c["model"], "seed": c["seed"], "log": None, "route": "settings", "prior": "nothing"}
+
+
+def same_observation(obs, ref):
+    return obs["kind"] == ref["kind"] and obs.get("stage") == ref.get("stage") and obs.get("digest") == ref.get("digest")
+
+
+def only_fit_metrics(parts):
+    """model.fit_metrics['nll_regul_ind_sum' / 'nll_tot'] are float32 sums whose order follows the iteration order of a set
+    (the defect reported through personalize(scipy_minimize), where it always changes the result); whether the last bit of
+    the metric changes depends on the values, so this symptom is counted, not used as a violation signature."""
+    return bool(parts) and all(isinstance(p, str) and p.startswith("fit_metrics[") for p in parts)
+
+
 def interp_signature(algo, obs, base):
     site = L.algo_site(algo)
     if obs["kind"] != base["kind"] or obs.get("stage") != base.get("stage"):
         return f"{site}|outcome differs across PYTHONHASHSEED|no logging", [obs.get("exc"), obs.get("msg")]
     parts = differing_parts(obs, base)
     if algo in L.FIT_SAMPLERS:
-        what = "fit_metrics differ (parameters identical)" if all(p.startswith("fit_metrics") for p in parts) else "parameters differ"
+        what = "parameters differ"
     elif algo in L.PERSONALIZE:
         what = "individual parameters differ"
     else:
@@ -397,6 +432,9 @@ def run_interp(acc, shard):
                 continue
             if obs.get("digest") != b.get("digest") or obs["kind"] != b["kind"]:
                 sig, parts = interp_signature(algo, obs, b)
+                if only_fit_metrics(parts):
+                    acc.count("fits whose fit_metrics (not parameters) differ across PYTHONHASHSEED")
+                    continue
                 acc.violation(sig, f"PYTHONHASHSEED={h} vs {HASHSEEDS[0]}: differing parts {parts[:8]}",
                               {"check": "interp", "cases": cases, "hashseeds": [HASHSEEDS[0], h], "index": cases.index(c)},
                               expected={p: (b.get("values") or {}).get(p) for p in parts[:4]},
@@ -419,8 +457,14 @@ def run_shard(shard):
             keys = [(c["algo"], c["model"], c["seed"]) for c in shard["cases"]]
             refs = reference_for(keys)
             acc.evaluation(len(refs))
+            differs = {}
             for c in shard["cases"]:
-                _run_and_judge(acc, c, refs[(c["algo"], c["model"], c["seed"])])
+                key = (c["algo"], c["model"], c["seed"])
+                if key not in differs:  # the plain call in THIS interpreter first
+                    differs[key] = not same_observation(_run_and_judge(acc, plain_case(c), refs[key]), refs[key])
+                    if c == plain_case(c):
+                        continue
+                _run_and_judge(acc, c, refs[key], differs[key])
         else:
             raise ValueError(shard)
     finally:
@@ -452,13 +496,18 @@ def replay(case):
                     continue
                 if obs.get("digest") != b.get("digest") or obs["kind"] != b["kind"]:
                     sig, parts = interp_signature(c["algo"], obs, b)
+                    if only_fit_metrics(parts):
+                        continue
                     out.append({"signature": sig, "message": f"PYTHONHASHSEED={h} vs {hs[0]} ({c['model']}): differing parts {parts[:8]}"})
         cleanup()
         return out
     c = {k: v for k, v in case.items() if k != "check"}
     key = (c["algo"], c["model"], c["seed"])
     ref = reference_for([key])[key]
+    differs = False
+    if c != plain_case(c) and c.get("interp") is None:
+        differs = not same_observation(L.run_case(plain_case(c)), ref)
     obs = L.run_case(c)
-    _, viols = judge(c, obs, ref)
+    _, viols = judge(c, obs, ref, differs)
     cleanup()
     return [{"signature": s, "message": m} for s, m, _, _ in viols]
